@@ -194,6 +194,7 @@ EXT_ENUMS = {
     'syn::GenericArgument': ['Lifetime', 'Type', 'Const', 'Binding', 'Constraint'],
     'syn::PathArguments': ['None', 'AngleBracketed', 'Parenthesized'],
 }
+EXT_TUPLE_VARIANTS = {'syn::Member::Named', 'syn::Member::Unnamed', 'std::option::Option::Some', 'std::result::Result::Ok', 'std::result::Result::Err'}
 EXT_ENUM_DISCR = {'std::cmp::Ordering': {'Less': -1, 'Equal': 0, 'Greater': 1}}
 EXT_STRUCTS = {
     'syn::Index': ['index', 'span'],
@@ -622,7 +623,7 @@ class Engine:
         parts = bare.split('::')
         ty = '::'.join(parts[:-1])
         if ty in self.enums and parts[-1] in self.enums[ty]:
-            if ty + '::' + parts[-1] in self.tuple_variants:
+            if ty + '::' + parts[-1] in self.tuple_variants or ty + '::' + parts[-1] in EXT_TUPLE_VARIANTS:
                 return FnItem(s)
             return EnumV(ty, self.enums[ty].index(parts[-1]), {})
         if ty in EXT_ENUM_DISCR and parts[-1] in EXT_ENUM_DISCR[ty]:
@@ -926,8 +927,13 @@ class Engine:
         if r is None:
             h = self.models.lookup(self, callee, bare)
             if h is None:
-                raise Unsupported('call ' + callee)
-            r = ('model', h)
+                ety, _, var = bare.rpartition('::')
+                if ety in self.enums and var in self.enums[ety]:
+                    r = ('ctor', ety, self.enums[ety].index(var))
+                else:
+                    raise Unsupported('call ' + callee)
+            else:
+                r = ('model', h)
         self.dispatch_cache[callee] = r
         return r
 
@@ -935,7 +941,19 @@ class Engine:
         r = self.resolve(callee)
         if self.trace_calls:
             print('  ' * 0 + 'CALL', callee[:140])
+        if r[0] == 'ctor':
+            return EnumV(r[1], r[2], {r[2]: list(args)})
         if r[0] == 'mir':
+            gs = getattr(self, 'gstack', None)
+            if gs is not None and callee.endswith('>') and '::<' in callee:
+                k = callee.rfind('::<')
+                # method generics of the call (`name::<A, B>`); used to resolve `T` inside generic helper fns
+                depth, j = 0, len(callee) - 1
+                gs.append([x.strip() for x in split_top(callee[k + 3:-1])] if callee.count('<', k) == callee.count('>', k) else [])
+                try:
+                    return self.call_fn(r[1], args)
+                finally:
+                    gs.pop()
             return self.call_fn(r[1], args)
         fn, mm = r[1]
         self.models_used.add(fn.__name__)
